@@ -43,9 +43,25 @@ class VLoop(base_events.BaseEventLoop):
     def call_soon_threadsafe(self, callback, *args, context=None):
         return self.call_soon(callback, *args, context=context)
 
+    # exec_eager: an idle pool thread picks the job up at once - the function runs at submission and only the
+    # delivery of its outcome to the loop is an environment event (matters for jobs that mutate shared state).
+    exec_eager = False
+
     def run_in_executor(self, executor, func, *args):
         fut = self.create_future()
-        self.exec_jobs.append((fut, func, args))
+        if self.exec_eager:
+            try:
+                out = (True, func(*args))
+            except BaseException as e:  # noqa: BLE001
+                out = (False, e)
+
+            def replay(out=out):
+                if out[0]:
+                    return out[1]
+                raise out[1]
+            self.exec_jobs.append((fut, replay, ()))
+        else:
+            self.exec_jobs.append((fut, func, args))
         return fut
 
     # A thread that already started a job cannot be stopped: with exec_runs_cancelled the function
